@@ -141,6 +141,11 @@ GSUBST = []   # [(literal, replacement)] set per template run by @@gsubst
 
 def apply_gsubst(t, stats=None):
     for (a, b) in GSUBST:
+        if a.startswith("re:"):
+            t, n = re.subn(a[3:], b, t)
+            if stats is not None and n:
+                stats["R10"] += n
+            continue
         rx = re.compile(ws_insensitive_regex(a))
         t, n = rx.subn(b.replace("\\", "\\\\"), t)
         if stats is not None and n:
@@ -160,57 +165,133 @@ def source(path):
 # ------------------------------------------------------------------------------------------------
 # macro_rules! instantiation (first arm, `$x` params and `$( .. )?` optional groups)
 # ------------------------------------------------------------------------------------------------
-def expand_macro(text, name, args, path):
+def _tokenize_pattern(pat):
+    """macro pattern -> list of tokens: ('frag', name, kind) | ('opt', [tokens]) | ('lit', text)"""
+    toks = []
+    i = 0
+    n = len(pat)
+    while i < n:
+        c = pat[i]
+        if c.isspace():
+            i += 1
+            continue
+        if pat.startswith("$(", i):
+            e = match_close(pat, i + 1, "(", ")")
+            inner = pat[i + 2:e]
+            j = e + 1
+            while j < n and pat[j].isspace():
+                j += 1
+            if j < n and pat[j] == "?":
+                toks.append(("opt", _tokenize_pattern(inner)))
+                i = j + 1
+                continue
+            raise ExtractError("macro pattern: only `$( .. )?` groups are supported")
+        m = re.compile(r"\$(\w+)\s*:\s*(\w+)").match(pat, i)
+        if m:
+            toks.append(("frag", m.group(1), m.group(2)))
+            i = m.end()
+            continue
+        toks.append(("lit", c))
+        i += 1
+    return toks
+
+
+def _match_tokens(toks, text, pos, bind):
+    """greedy matcher without backtracking except for optional groups; returns new pos or None"""
+    n = len(text)
+
+    def skip_ws(p):
+        while p < n and text[p].isspace():
+            p += 1
+        return p
+
+    for k, t in enumerate(toks):
+        pos = skip_ws(pos)
+        if t[0] == "lit":
+            if pos < n and text[pos] == t[1]:
+                pos += 1
+            else:
+                return None
+        elif t[0] == "frag":
+            name, kind = t[1], t[2]
+            if kind == "ident":
+                m = re.compile(r"[A-Za-z_]\w*").match(text, pos)
+                if not m:
+                    return None
+                bind[name] = m.group(0)
+                pos = m.end()
+            elif kind == "lifetime":
+                m = re.compile(r"'\w+").match(text, pos)
+                if not m:
+                    return None
+                bind[name] = m.group(0)
+                pos = m.end()
+            else:  # ty / expr / path / tt: up to a top-level ',' ';' '{' or the end
+                d = 0
+                j = pos
+                while j < n:
+                    ch = text[j]
+                    if ch in "<([":
+                        d += 1
+                    elif ch in ">)]":
+                        if ch == ">" and j > 0 and text[j - 1] == "-":
+                            pass
+                        else:
+                            d -= 1
+                    elif d == 0 and ch in ",;{":
+                        break
+                    j += 1
+                val = text[pos:j].strip()
+                if not val:
+                    return None
+                bind[name] = val
+                pos = j
+        elif t[0] == "opt":
+            b2 = dict(bind)
+            p2 = _match_tokens(t[1], text, pos, b2)
+            if p2 is not None:
+                bind.update(b2)
+                pos = p2
+            else:
+                for nm in _frag_names(t[1]):
+                    bind.setdefault(nm, None)
+    return pos
+
+
+def _frag_names(toks):
+    out = []
+    for t in toks:
+        if t[0] == "frag":
+            out.append(t[1])
+        elif t[0] == "opt":
+            out += _frag_names(t[1])
+    return out
+
+
+def macro_def(text, name, path):
     m = re.search(r"macro_rules!\s*" + re.escape(name) + r"\s*\{", text)
     if not m:
         raise ExtractError("macro %s not found in %s" % (name, path))
     body_end = match_close(text, m.end() - 1)
-    inner = text[m.end() : body_end]
-    # first arm: ( pattern ) => { body }
+    inner = text[m.end():body_end]
     i = inner.index("(")
     j = match_close(inner, i, "(", ")")
-    pattern = inner[i + 1 : j]
+    pattern = inner[i + 1:j]
     k = inner.index("{", j)
     l = match_close(inner, k)
-    body = inner[k + 1 : l]
-    # the invocation must exist in the file (so that we verify what is really instantiated)
-    inv = ws_insensitive_regex(name + "!(") + r"\s*" + r"\s*,\s*".join(ws_insensitive_regex(a) for a in args)
-    if not re.search(inv, text):
-        raise ExtractError("no invocation %s!(%s) in %s" % (name, ", ".join(args), path))
-    # parameters in order of appearance; optional group params are those inside $( )?
-    params = re.findall(r"\$(\w+)\s*:\s*\w+", pattern)
-    optional = set()
-    for g in re.finditer(r"\$\(([^)]*)\)\s*\?", pattern):
-        optional.update(re.findall(r"\$(\w+)\s*:", g.group(1)))
-    bind = {}
-    ai = 0
-    for p in params:
-        if p in optional:
-            # optional params are bound by kind: lifetimes start with ', `Send`-like idents otherwise
-            continue
-        if ai >= len(args):
-            raise ExtractError("macro %s: not enough args" % name)
-        bind[p] = args[ai]
-        ai += 1
-    rest = args[ai:]
-    for p in params:
-        if p in optional:
-            kind = re.search(r"\$" + p + r"\s*:\s*(\w+)", pattern).group(1)
-            pick = None
-            for r_ in rest:
-                if kind == "lifetime" and r_.startswith("'"):
-                    pick = r_
-                elif kind != "lifetime" and not r_.startswith("'"):
-                    pick = r_
-                if pick:
-                    break
-            if pick:
-                rest.remove(pick)
-                bind[p] = pick
-            else:
-                bind[p] = None
+    return pattern, inner[k + 1:l]
 
-    # optional groups in body: $( ... )?   (may contain `$x`)
+
+def instantiate_macro(text, name, inv_args, path):
+    pattern, body = macro_def(text, name, path)
+    toks = _tokenize_pattern(pattern)
+    bind = {}
+    pos = _match_tokens(toks, inv_args, 0, bind)
+    if pos is None or inv_args[pos:].strip() not in ("", ","):
+        raise ExtractError("macro %s: invocation `%s` does not match pattern `%s`" % (name, inv_args, pattern.strip()))
+    for nm in _frag_names(toks):
+        bind.setdefault(nm, None)
+
     def expand_groups(b):
         out = []
         i = 0
@@ -221,26 +302,64 @@ def expand_macro(text, name, args, path):
                 break
             out.append(b[i:g])
             e = match_close(b, g + 1, "(", ")")
-            grp = b[g + 2 : e]
-            after = b[e + 1 :]
-            mm = re.match(r"\s*\?", after)
+            grp = b[g + 2:e]
+            mm = re.match(r"\s*\?", b[e + 1:])
             if not mm:
-                raise ExtractError("macro %s: unsupported repetition" % name)
+                raise ExtractError("macro %s: unsupported repetition in body" % name)
             names = re.findall(r"\$(\w+)", grp)
-            if all(bind.get(nm) is not None for nm in names) and names:
-                out.append(grp)
+            if names and all(bind.get(nm) is not None for nm in names):
+                out.append(expand_groups(grp))
             i = e + 1 + mm.end()
         return "".join(out)
 
     body = expand_groups(body)
-    for p, v in bind.items():
+    for p_, v in bind.items():
         if v is None:
             continue
-        body = re.sub(r"\$" + p + r"\b", v.replace("\\", "\\\\"), body)
-    if "$" in re.sub(r'"[^"]*"', "", body):
-        left = re.findall(r"\$\w+", body)
+        body = re.sub(r"\$" + p_ + r"\b", v.replace("\\", "\\\\"), body)
+    left = re.findall(r"\$\w+", re.sub(r'"[^"]*"', "", body))
+    if left:
         raise ExtractError("macro %s: unexpanded %s" % (name, left[:3]))
     return body
+
+
+def find_invocations(text, name):
+    """[(start, end, args_text)] of `name!( .. )` invocations outside the macro definitions"""
+    res = []
+    for m in re.finditer(r"\b" + re.escape(name) + r"!\s*\(", text):
+        e = match_close(text, m.end() - 1, "(", ")")
+        res.append((m.start(), e + 1, text[m.end():e]))
+    return res
+
+
+def expand_macro(text, name, args, path):
+    """instantiate macro `name` with the invocation in the file whose arguments equal `args`"""
+    want = re.sub(r"\s+", "", ",".join(args))
+    for (s_, e_, a) in find_invocations(text, name):
+        if re.sub(r"\s+", "", a).rstrip(",") == want:
+            return instantiate_macro(text, name, a, path)
+    raise ExtractError("no invocation %s!(%s) in %s" % (name, ", ".join(args), path))
+
+
+def expand_inline_macros(item_text, file_text, path, stats):
+    """expand invocations of file-local macro_rules inside an extracted item (e.g. an impl body
+    that consists of `impl_observer_methods!(Item { clone }, Err { clone });`)"""
+    for _ in range(8):
+        m = None
+        for mm in re.finditer(r"\b(\w+)!\s*\(", item_text):
+            if re.search(r"macro_rules!\s*" + re.escape(mm.group(1)) + r"\s*\{", file_text):
+                m = mm
+                break
+        if not m:
+            return item_text
+        e = match_close(item_text, m.end() - 1, "(", ")")
+        exp = instantiate_macro(file_text, m.group(1), item_text[m.end():e], path)
+        tail = item_text[e + 1:]
+        if tail.lstrip().startswith(";"):
+            tail = tail.lstrip()[1:]
+        item_text = item_text[:m.start()] + exp + tail
+        stats["inline_macro_expansions"] = stats.get("inline_macro_expansions", 0) + 1
+    raise ExtractError("macro expansion depth exceeded in %s" % path)
 
 
 def get_text(path, macro=None, args=None):
@@ -338,7 +457,138 @@ def rewrite_map_or(code, stats):
         recv_flat = re.sub(r"\s+", "", recv)
         new = "match %s { Some(%s) => %s, None => %s }" % (recv_flat, var, body, default)
         code = code[:j] + new + code[cl + 1 :]
-        stats["R4"] += 1
+        stats["R4"] = stats.get("R4", 0) + 1
+
+
+def _closure_at(code, pos):
+    """code[pos] == '|' : parse `|x| BODY` up to the closing ')' of the enclosing call.
+    returns (var, body_text, index_of_closing_paren)"""
+    m = re.compile(r"\|\s*(mut\s+)?(\w+)\s*\|\s*").match(code, pos)
+    if not m:
+        raise ExtractError("R9: closure form not supported near: %s" % code[pos:pos + 40])
+    var = m.group(2)
+    # find the ')' that closes the call whose '(' precedes pos
+    d = 0
+    j = m.end()
+    n = len(code)
+    while j < n:
+        k = skip_trivia(code, j)
+        if k != j:
+            j = k
+            continue
+        ch = code[j]
+        if ch in "([{":
+            d += 1
+        elif ch in ")]}":
+            if d == 0:
+                break
+            d -= 1
+        j += 1
+    body = code[m.end():j].strip()
+    if body.endswith(","):
+        body = body[:-1].rstrip()
+    if body.startswith("{") and match_close(body, 0) == len(body) - 1:
+        body = body[1:-1].strip()
+    return var, body, j
+
+
+def _receiver_start(code, i):
+    """start index of the postfix-chain receiver that ends at i (exclusive)"""
+    j = i
+    while j > 0:
+        c = code[j - 1]
+        if c in ")]":
+            d = 0
+            k = j - 1
+            while k >= 0:
+                if code[k] in ")]":
+                    d += 1
+                elif code[k] in "([":
+                    d -= 1
+                    if d == 0:
+                        break
+                k -= 1
+            j = k
+            continue
+        if c.isalnum() or c in "_.:":
+            j -= 1
+            continue
+        if c in " \t\n":
+            if code[j:i].lstrip().startswith(".") or code[j:i].strip() == "":
+                j -= 1
+                continue
+            break
+        break
+    while j < i and code[j] in " \t\n":
+        j += 1
+    return j
+
+
+def rewrite_iter_adapters(code, stats):
+    """R9: definitions of the std iterator adapters used by rxRust, as loops.
+      R9a  E.iter_mut().for_each(|p| B)                 ->  index loop over E, p = &mut E[i]
+      R9b  E.into_iter()[.filter(|x| C)].for_each(|y| B) ->  `for y in it_: E { if C { B } }`
+      R9c  E.retain(|x| C)                              ->  index loop removing the elements failing C
+      R9d  E.iter().all(|x| C)                          ->  short-circuit index loop yielding a bool
+    Assumed std contract: the adapters visit the elements once, in order."""
+    flat = lambda e: re.sub(r"\s+", "", e)
+    for _ in range(20):
+        m = re.search(r"\.\s*iter_mut\(\)\s*\.\s*for_each\s*\(\s*(?=\|)", code)
+        if m:
+            rs = _receiver_start(code, m.start())
+            recv = flat(code[rs:m.start()])
+            var, body, cl = _closure_at(code, m.end())
+            new = ("{ let mut i_ = 0usize; while i_ < %s.len() { let %s = &mut %s[i_]; { %s } i_ += 1; } }"
+                   % (recv, var, recv, body))
+            end = cl + 1
+            code = code[:rs] + new + code[end:]
+            stats["R9"] = stats.get("R9", 0) + 1
+            continue
+        m = re.search(r"\.\s*into_iter\(\)\s*(\.\s*filter\s*\(\s*(?=\|))?", code)
+        if m and re.compile(r"\s*(\|)", ).match(code, m.end()) and m.group(1):
+            rs = _receiver_start(code, m.start())
+            recv = flat(code[rs:m.start()])
+            fvar, fbody, fcl = _closure_at(code, m.end())
+            m2 = re.compile(r"\s*\.\s*for_each\s*\(\s*(?=\|)").match(code, fcl + 1)
+            if not m2:
+                raise ExtractError("R9b: into_iter().filter(..) not followed by for_each")
+            var, body, cl = _closure_at(code, m2.end())
+            new = ("for %s in it_: %s { if { let %s = &%s; %s } { %s } }" % (var, recv, fvar, var, fbody, body))
+            code = code[:rs] + new + code[cl + 1:]
+            stats["R9"] = stats.get("R9", 0) + 1
+            continue
+        m = re.search(r"\.\s*into_iter\(\)\s*\.\s*for_each\s*\(\s*(?=\|)", code)
+        if m:
+            rs = _receiver_start(code, m.start())
+            recv = flat(code[rs:m.start()])
+            var, body, cl = _closure_at(code, m.end())
+            new = "for %s in it_: %s { %s }" % (var, recv, body)
+            code = code[:rs] + new + code[cl + 1:]
+            stats["R9"] = stats.get("R9", 0) + 1
+            continue
+        m = re.search(r"\.\s*retain\s*\(\s*(?=\|)", code)
+        if m:
+            rs = _receiver_start(code, m.start())
+            recv = flat(code[rs:m.start()])
+            var, body, cl = _closure_at(code, m.end())
+            new = ("{ let mut i_ = 0usize; while i_ < %s.len() { let keep_ = { let %s = &%s[i_]; %s }; "
+                   "if keep_ { i_ += 1; } else { %s.remove(i_); } } }" % (recv, var, recv, body, recv))
+            code = code[:rs] + new + code[cl + 1:]
+            stats["R9"] = stats.get("R9", 0) + 1
+            continue
+        m = re.search(r"\.\s*iter\(\)\s*\.\s*all\s*\(\s*(?=\|)", code)
+        if m:
+            rs = _receiver_start(code, m.start())
+            recv = flat(code[rs:m.start()])
+            var, body, cl = _closure_at(code, m.end())
+            body = rewrite_map_or(body, stats)
+            new = ("{ let mut all_ = true; let mut i_ = 0usize; while all_ && i_ < %s.len() { let %s = &%s[i_]; "
+                   "if !(%s) { all_ = false; } i_ += 1; } all_ }" % (recv, var, recv, body))
+            code = code[:rs] + new + code[cl + 1:]
+            stats["R9"] = stats.get("R9", 0) + 1
+            continue
+        return code
+    raise ExtractError("R9: too many rewrites")
 
 
 def replace_self(body, new="self_"):
@@ -506,7 +756,7 @@ def extract_struct(path, name, kind, macro, args, stats):
     return publicize_struct(item, stats)
 
 
-HANDLE_TRAITS = {"Observer": "HObserver", "Subscription": "HSubscription"}
+HANDLE_TRAITS = {"Observer": "HObserver", "Subscription": "HSubscription", "Observable": "HObservable"}
 
 
 class ImplSpec:
@@ -613,10 +863,15 @@ def process_fn(fn, spec, handle, stats, canary):
             raise ExtractError("declared rewrite on %s no longer matches exactly once: %s" % (name, old))
         body = body[: ms[0].start()] + new + body[ms[0].end():]
         stats["declared_rewrites"] += 1
+    body = rewrite_iter_adapters(body, stats)
     body = rewrite_map_or(body, stats)
     body = drop_attrs_and_docs(body)
     # receivers
     by_value = re.search(r"\(\s*(mut\s+)?self\s*[,)]", sig) is not None
+    if re.search(r"\(\s*self\s*:\s*Box\s*<\s*Self\s*>", sig):
+        body = "\n    let mut self_ = self;" + replace_self(body)
+        stats["R1"] += 1
+        by_value = False
     if by_value:
         if handle:
             sig = re.sub(r"\(\s*(mut\s+)?self\s*([,)])", r"(&mut self\2", sig, count=1)
@@ -708,6 +963,7 @@ def extract_impl(path, header_lit, macro, args, handle, spec, stats, canary):
     e = match_close(text, j)
     header = text[m.start() : j]
     body = text[j + 1 : e]
+    body = apply_gsubst(expand_inline_macros(body, source(path), path, stats))
     stats["verbatim_lines"] += header.count("\n") + 1
     header = drop_attrs_and_docs(header)
     for (a, b) in spec.subst:
@@ -729,8 +985,30 @@ def extract_impl(path, header_lit, macro, args, handle, spec, stats, canary):
         header = rx.sub(b.replace("\\", "\\\\"), header, count=1)
         stats["R10"] += 1
     if handle:
-        for a, b in HANDLE_TRAITS.items():
-            header = re.sub(r"\b%s\b(?=\s*(<|for\b))" % a, b, header, count=1)
+        # rename the implemented trait only (the token right before ` for <SelfTy>`), never a bound
+        fm = re.search(r"\bfor\b", header)
+        if fm:
+            head_part = header[:fm.start()]
+            for a, b in HANDLE_TRAITS.items():
+                # last occurrence of the trait name followed by '<' or whitespace before `for`
+                ms = list(re.finditer(r"\b%s\b(?=\s*(<|$))" % a, head_part.rstrip()))
+                # the trait is the token after the impl generics: find the one outside `impl<..>`
+                gm = re.match(r"\s*impl\s*(<)?", head_part)
+                gend = 0
+                if gm and gm.group(1):
+                    d = 0
+                    for k in range(gm.end() - 1, len(head_part)):
+                        if head_part[k] == "<":
+                            d += 1
+                        elif head_part[k] == ">" and head_part[k - 1] != "-":
+                            d -= 1
+                            if d == 0:
+                                gend = k + 1
+                                break
+                tm_ = re.match(r"\s*%s\b" % a, head_part[gend:])
+                if tm_:
+                    header = head_part[:gend] + re.sub(r"\b%s\b" % a, b, head_part[gend:], count=1) + header[fm.start():]
+                    break
     if re.match(r"\s*(pub\s+)?trait\b", header):
         gen, trait, selfty, where = "", "", "Self", ""
     else:
@@ -858,7 +1136,7 @@ def variants_of(template_text):
             cols = {}
             for tok in line.split()[1:]:
                 k, v = tok.split("=", 1)
-                cols[k] = v.split(",")
+                cols[k] = v.split("|") if "|" in v else v.split(",")
             n = len(next(iter(cols.values())))
             return [{k: v[i] for k, v in cols.items()} for i in range(n)]
     return [{}]
@@ -922,7 +1200,10 @@ def generate(template_path, variant, canary=False):
             kv, rest = parse_kv(toks[1:])
             path, name = rest[0], rest[1]
             args = kv["args"].split(";") if "args" in kv else None
-            out.append(extract_struct(path, name, d[2:], kv.get("macro"), args, stats))
+            st_ = extract_struct(path, name, d[2:], kv.get("macro"), args, stats)
+            for tp in (kv.get("reject", "").split(",") if kv.get("reject") else []):
+                st_ = "#[verifier::reject_recursive_types(%s)]\n" % tp + st_
+            out.append(st_)
             stats["sources"].append("%s %s::%s" % (d[2:], path, name))
             i += 1
             continue
